@@ -86,6 +86,16 @@ def specs():
     add("conj", lambda V: b.conj(V[0]), [4])
     add("q2r", lambda V: b.q2r(V[0]), [4])
     add("slerp", lambda V: b.slerp(V[0], V[1], 0.3), [4, 4], prep=lambda v: list(refs.unit(_nz(v))))
+    # the same functions with their scalar parameter at an exact special value (end points, zero power / angle): the vector
+    # arguments are converted and validated just the same
+    add("slerp/s=0", lambda V: b.slerp(V[0], V[1], 0), [4, 4], prep=lambda v: list(refs.unit(_nz(v))))
+    add("slerp/s=1", lambda V: b.slerp(V[0], V[1], 1), [4, 4], prep=lambda v: list(refs.unit(_nz(v))))
+    add("slerp/s=0.0", lambda V: b.slerp(V[0], V[1], 0.0), [4, 4], prep=lambda v: list(refs.unit(_nz(v))))
+    add("slerp/s=1.0/shortest", lambda V: b.slerp(V[0], V[1], 1.0, True), [4, 4], prep=lambda v: list(refs.unit(_nz(v))))
+    add("slerp/s=0.5", lambda V: b.slerp(V[0], V[1], 0.5), [4, 4], prep=lambda v: list(refs.unit(_nz(v))))
+    add("qpow/0", lambda V: b.qpow(V[0], 0), [4])
+    add("qpow/1", lambda V: b.qpow(V[0], 1), [4])
+    add("qpow/-1", lambda V: b.qpow(V[0], -1), [4])
     add("matrix", lambda V: b.matrix(V[0]), [4])
     add("dot", lambda V: b.dot(V[0], V[1]), [4, 3])
     add("dotb", lambda V: b.dotb(V[0], V[1]), [4, 3])
@@ -121,6 +131,8 @@ def specs():
     add("homtrans", lambda V: b.homtrans(T4.copy(), V[0]), [3], forms=FORMS3)
     add("rodrigues/3", lambda V: b.rodrigues(V[0]), [3])
     add("rodrigues/theta", lambda V: b.rodrigues(V[0], 0.3), [3], prep=lambda v: list(refs.unit(_nz(v))))
+    add("angvec2r/theta=0", lambda V: b.angvec2r(0, V[0]), [3], prep=_nz)
+    add("trotx/0/t", lambda V: b.trotx(0, t=V[0]), [3])
     # vectors
     add("colvec", lambda V: b.colvec(V[0]), ["any"])
     add("unitvec", lambda V: b.unitvec(V[0]), ["any"], prep=_nz)
